@@ -78,6 +78,28 @@ def standard_check(plugin, tier, seed, replay=None):
     else:
         log("[%s] proof step ok: %d theorems, axioms: %s" % (prop, proof["obligations"], proof["axioms"] or "none"))
 
+    # ---- 1b. thorough tier: independent re-check of the compiled libraries with coqchk ----
+    if tier == "thorough" and proof["ok"]:
+        mods = ["MechV." + pf[len("theories/"):-2].replace("/", ".") for pf in props_files]
+        rc, out = core.run(["coqchk", "-silent", "-o", "-Q", "theories", "MechV"] + mods, cwd=core.COQ, timeout=3000)
+        ax = []
+        grab = False
+        for line in out.split("\n"):
+            if line.strip().startswith("* Axioms:"):
+                grab = True; continue
+            if grab:
+                if line.strip().startswith("*") or not line.strip():
+                    grab = False
+                else:
+                    ax.append(line.strip())
+        proof["coqchk"] = dict(rc=rc, axioms=ax, tail=out[-800:])
+        bad_ax = [a for a in ax if a != "<none>" and not any(a.endswith(x.split(".")[-1]) or x in a for x in core.STDLIB_AXIOMS_ALLOWED)]
+        if rc != 0 or bad_ax:
+            proof["ok"] = False
+            proof["failed"] = "coqchk: rc=%d axioms outside the allow-list: %s" % (rc, bad_ax)
+            proof["discharged"] = 0
+        log("[%s] coqchk rc=%d axioms=%s" % (prop, rc, ax))
+
     # ---- 2. model binary ------------------------------------------------
     model_exe, mlog = core.build_model(prop)
     # ---- 3. implementation ----------------------------------------------
@@ -195,6 +217,8 @@ def standard_check(plugin, tier, seed, replay=None):
 
     cov["notes"] = notes
     cov["translator"] = translator_status
+    if "coqchk" in proof:
+        cov["coqchk"] = proof["coqchk"]
     core.write_evidence(prop, tier, seed, t0, proof, cov, assumptions, len(violations), level=level)
     for path, suffix in violations:
         print("VIOLATION property=%s replay=%s%s" % (prop, path, suffix))
